@@ -44,6 +44,8 @@ type c07Item struct {
 	D int    `json:"d,omitempty"` // the mapper sleeps D ticks ...
 	W int    `json:"w,omitempty"` // ... then writes W values ...
 	A string `json:"a,omitempty"` // ... then: "" | cancel | cancelnil | panic
+	V string `json:"v,omitempty"` // value of the item itself: "" int | str | struct | nil | nilptr | zero | empty | zerostruct
+	X string `json:"x,omitempty"` // values the mapper writes: "" struct{item,k} | nil | nilptr | zero
 }
 
 type c07Red struct {
@@ -52,6 +54,7 @@ type c07Red struct {
 	Early int    `json:"early,omitempty"` // results written before consuming
 	Late  int    `json:"late,omitempty"`  // results written after consuming
 	A     string `json:"a,omitempty"`     // then: "" | cancel | cancelnil | panic
+	RV    string `json:"rv,omitempty"`    // the result written: "" struct{k} | nil (what Write(nil) means is not documented: unspecified)
 }
 
 type c07Case struct {
@@ -102,6 +105,69 @@ type c07Panic struct {
 }
 
 type c07Val struct{ I, K int }
+
+// Item values. Items are identified by POSITION: int/str/struct values carry
+// their position; nil, typed nil pointers and zero values do not, positions with
+// the same such value are interchangeable and a received value claims the first
+// position of that value which no mapper has claimed yet.
+type c07ItemS struct{ Pos int }
+
+const c07IntBase = 1000
+
+func c07ItemValue(i int, kind string) any {
+	switch kind {
+	case "str":
+		return fmt.Sprintf("item-%d", i)
+	case "struct":
+		return c07ItemS{Pos: i}
+	case "nil":
+		return nil
+	case "nilptr":
+		return (*int)(nil)
+	case "zero":
+		return 0
+	case "empty":
+		return ""
+	case "zerostruct":
+		return struct{}{}
+	}
+	return c07IntBase + i
+}
+
+func c07Identifying(kind string) bool { return kind == "" || kind == "str" || kind == "struct" }
+
+func c07WrittenValue(i, k int, kind string) any {
+	switch kind {
+	case "nil":
+		return nil
+	case "nilptr":
+		return (*c07Val)(nil)
+	case "zero":
+		return 0
+	}
+	return c07Val{I: i, K: k}
+}
+
+// claim maps a value received by a mapper to an item position (-1: no position
+// of the case is left for this value).
+func (r *c07Run) claim(item any) int {
+	r.mu.Lock()
+	defer r.mu.Unlock()
+	items := r.c.Items
+	for i := range items {
+		if c07Identifying(items[i].V) && c07ItemValue(i, items[i].V) == item {
+			return i // may be claimed more than once: counted in mapped[i]
+		}
+	}
+	for i := range items {
+		if !c07Identifying(items[i].V) && !r.claimed[i] && c07ItemValue(i, items[i].V) == item {
+			r.claimed[i] = true
+			return i
+		}
+	}
+	r.unclaimed = append(r.unclaimed, fmt.Sprintf("%#v", item))
+	return -1
+}
 
 type c07Out struct{ K int }
 
@@ -158,8 +224,10 @@ type c07Run struct {
 	mu        sync.Mutex
 	events    []c07Event
 	mapped    map[int]int
-	written   map[c07Val]int
-	seen      map[c07Val]int
+	written   map[any]int
+	seen      map[any]int
+	claimed   map[int]bool
+	unclaimed []string
 	cur, max  int
 	generated int
 	genDone   bool
@@ -298,7 +366,7 @@ func (r *c07Run) generate(source chan<- any, mayPanic bool) {
 		r.mu.Lock()
 		r.generated++
 		r.mu.Unlock()
-		source <- i
+		source <- c07ItemValue(i, it.V)
 	}
 	if mayPanic && r.c.GenPanic == len(r.c.Items) {
 		r.act("panic", "generator", len(r.c.Items), nil, nil)
@@ -307,13 +375,16 @@ func (r *c07Run) generate(source chan<- any, mayPanic bool) {
 }
 
 func (r *c07Run) mapper(item any, w mr.Writer, cancel func(error)) {
-	i := item.(int)
+	i := r.claim(item)
+	if i < 0 {
+		return
+	}
 	it := r.c.Items[i]
 	r.enter(i)
 	defer r.exit()
 	r.sleep(it.D)
 	for k := 0; k < it.W; k++ {
-		v := c07Val{I: i, K: k}
+		v := c07WrittenValue(i, k, it.X)
 		r.mu.Lock()
 		r.written[v]++
 		r.mu.Unlock()
@@ -323,7 +394,10 @@ func (r *c07Run) mapper(item any, w mr.Writer, cancel func(error)) {
 }
 
 func (r *c07Run) each(item any) {
-	i := item.(int)
+	i := r.claim(item)
+	if i < 0 {
+		return
+	}
 	it := r.c.Items[i]
 	r.enter(i)
 	defer r.exit()
@@ -339,7 +413,11 @@ func (r *c07Run) reducer(pipe <-chan any, w mr.Writer, cancel func(error)) {
 	write := func(n int) {
 		for j := 0; j < n && w != nil; j++ {
 			r.log(c07Event{kind: "write", src: "reducer"})
-			w.Write(c07Out{K: k})
+			if rd.RV == "nil" {
+				w.Write(nil)
+			} else {
+				w.Write(c07Out{K: k})
+			}
 			k++
 		}
 	}
@@ -348,7 +426,7 @@ func (r *c07Run) reducer(pipe <-chan any, w mr.Writer, cancel func(error)) {
 		n := 0
 		for v := range pipe {
 			r.mu.Lock()
-			r.seen[v.(c07Val)]++
+			r.seen[v]++
 			r.mu.Unlock()
 			n++
 			r.sleep(rd.D)
@@ -554,7 +632,7 @@ func (r *c07Run) disturbing(upTo time.Duration) []c07Event {
 // ---------------------------------------------------------------- oracle
 
 func c07NewRun(c c07Case) *c07Run {
-	r := &c07Run{c: c, mapped: map[int]int{}, written: map[c07Val]int{}, seen: map[c07Val]int{},
+	r := &c07Run{c: c, mapped: map[int]int{}, written: map[any]int{}, seen: map[any]int{}, claimed: map[int]bool{},
 		redErr: &c07Err{src: "reducer"}}
 	for i := range c.Items {
 		r.errs = append(r.errs, &c07Err{src: "item", i: i})
@@ -611,6 +689,27 @@ func (r *c07Run) judge(res kit.BubbleResult) (v kit.Verdict) {
 	}
 	if c.Zero {
 		cls["zero-delay"] = true
+	}
+	for _, it := range c.Items {
+		if c.Entry == "finish" || c.Entry == "finishvoid" {
+			break
+		}
+		switch it.V {
+		case "nil":
+			cls["item:nil"] = true
+		case "nilptr":
+			cls["item:typed-nil"] = true
+		case "zero", "empty", "zerostruct":
+			cls["item:zero-value"] = true
+		case "str", "struct":
+			cls["item:str/struct"] = true
+		}
+		if it.X == "nil" && it.W > 0 && c.hasReducer() {
+			cls["written:nil"] = true
+		}
+	}
+	if c.Red.RV == "nil" {
+		cls["result:nil(unspecified)"] = true
 	}
 
 	nPanics := 0
@@ -691,12 +790,20 @@ func (r *c07Run) judge(res kit.BubbleResult) (v kit.Verdict) {
 			return v.Failf("item %d was passed to the mapper %d times", i, k)
 		}
 	}
+	if len(r.unclaimed) > 0 {
+		return v.Failf("a mapper received %v: no generated item (position) is left for that value", r.unclaimed)
+	}
+	nWritten, nSeen := 0, 0
+	for _, k := range r.written {
+		nWritten += k
+	}
 	for val, k := range r.seen {
-		if k > 1 {
-			return v.Failf("value %v reached the reducer %d times", val, k)
-		}
+		nSeen += k
 		if r.written[val] == 0 {
-			return v.Failf("the reducer received %v which no mapper wrote", val)
+			return v.Failf("the reducer received %#v which no mapper wrote", val)
+		}
+		if k > r.written[val] {
+			return v.Failf("value %#v reached the reducer %d times, written %d times", val, k, r.written[val])
 		}
 	}
 	if r.max > w {
@@ -721,14 +828,14 @@ func (r *c07Run) judge(res kit.BubbleResult) (v kit.Verdict) {
 		if len(r.mapped) != n {
 			return v.Failf("undisturbed run: %d of %d generated items reached a mapper", len(r.mapped), n)
 		}
-		if c.hasReducer() && tookAll && len(r.seen) != len(r.written) {
-			return v.Failf("undisturbed run, reducer consumed its whole input: %d values written, %d received", len(r.written), len(r.seen))
+		if c.hasReducer() && tookAll && nSeen != nWritten {
+			return v.Failf("undisturbed run, reducer consumed its whole input: %d values written, %d received", nWritten, nSeen)
 		}
-		if c.hasReducer() && c.Red.Take > 0 && len(r.written) >= c.Red.Take && len(r.seen) != c.Red.Take {
-			return v.Failf("undisturbed run: reducer wanted %d of %d written values, received %d", c.Red.Take, len(r.written), len(r.seen))
+		if c.hasReducer() && c.Red.Take > 0 && nWritten >= c.Red.Take && nSeen != c.Red.Take {
+			return v.Failf("undisturbed run: reducer wanted %d of %d written values, received %d", c.Red.Take, nWritten, nSeen)
 		}
-		if c.hasReducer() && c.Red.Take > 0 && len(r.written) < c.Red.Take && len(r.seen) != len(r.written) {
-			return v.Failf("undisturbed run: reducer wanted %d values, %d written, received %d", c.Red.Take, len(r.written), len(r.seen))
+		if c.hasReducer() && c.Red.Take > 0 && nWritten < c.Red.Take && nSeen != nWritten {
+			return v.Failf("undisturbed run: reducer wanted %d values, %d written, received %d", c.Red.Take, nWritten, nSeen)
 		}
 		if !r.genDone && c.Entry != "finish" && c.Entry != "finishvoid" {
 			return v.Failf("undisturbed run returned before the generator function did")
@@ -840,6 +947,17 @@ func (r *c07Run) writes(t time.Duration) (lt, le, total int) {
 	return
 }
 
+// resultOK: the call returned the reducer's (first) result. For a nil result the
+// statement and the package documentation are silent (is Write(nil) "a value"?):
+// unspecified, both (nil, nil) and ErrReduceNoOutput are accepted.
+func (r *c07Run) resultOK() bool {
+	o := r.out
+	if r.c.Red.RV == "nil" {
+		return (o.kind == "value" && o.val == nil) || (o.kind == "err" && o.err == mr.ErrReduceNoOutput)
+	}
+	return o.kind == "value" && o.val == any(c07Out{K: 0})
+}
+
 func (r *c07Run) redret() (time.Duration, bool) {
 	for _, e := range r.events {
 		if e.kind == "redret" {
@@ -864,7 +982,7 @@ func (r *c07Run) normalOutcome() string {
 			}
 			return fmt.Sprintf("reducer wrote nothing, want ErrReduceNoOutput, got %v", o)
 		case total == 1:
-			if o.kind == "value" && o.val == any(c07Out{K: 0}) {
+			if r.resultOK() {
 				return ""
 			}
 			return fmt.Sprintf("reducer wrote one value, want it returned, got %v", o)
@@ -975,7 +1093,7 @@ func (r *c07Run) disturbedOutcome(dist []c07Event, cls map[string]bool) string {
 		// the reducer's result was there first (or at the same instant)
 		switch c.Entry {
 		case "mr", "chan":
-			if le > 0 && o.kind == "value" && o.val == any(c07Out{K: 0}) {
+			if le > 0 && r.resultOK() {
 				cls["output-decided"] = true
 				return ""
 			}
@@ -1051,6 +1169,10 @@ func c07Gen(zero bool) func(rt *rapid.T) c07Case {
 		disturbed := rapid.IntRange(0, 9).Draw(rt, "disturbed") < 6
 		slowGen := rapid.IntRange(0, 3).Draw(rt, "slowgen") == 0
 		ones := rapid.Bool().Draw(rt, "ones")
+		// item / written values as a dimension (identity is the position, see claim)
+		mixed := !fin && rapid.IntRange(0, 3).Draw(rt, "values") < 2
+		vkinds := []string{"nil", "", "nilptr", "zero", "", "str", "struct", "empty", "zerostruct"}
+		xkinds := []string{"nil", "", "", "nilptr", "zero"}
 		for i := 0; i < n; i++ {
 			it := c07Item{W: 1}
 			if slowGen {
@@ -1061,6 +1183,12 @@ func c07Gen(zero bool) func(rt *rapid.T) c07Case {
 			it.D = c07Pick(rt, "d", 0, 0, 1, 1, 2, 3, 5, 8)
 			if !ones {
 				it.W = c07Pick(rt, "wr", 0, 1, 1, 2, 3)
+			}
+			if mixed {
+				it.V = rapid.SampledFrom(vkinds).Draw(rt, "v")
+				if c.hasReducer() {
+					it.X = rapid.SampledFrom(xkinds).Draw(rt, "x")
+				}
 			}
 			c.Items = append(c.Items, it)
 		}
@@ -1095,6 +1223,9 @@ func c07Gen(zero bool) func(rt *rapid.T) c07Case {
 					c.Red.Late = 1
 				}
 			}
+		}
+		if c.Red.Early+c.Red.Late > 0 && rapid.IntRange(0, 5).Draw(rt, "rv") == 0 {
+			c.Red.RV = "nil"
 		}
 		if disturbed {
 			acts := []string{"cancel", "cancel", "cancelnil", "panic", "panic"}
@@ -1141,7 +1272,8 @@ func c07GenStorm(rt *rapid.T) c07Case {
 	c.W = rapid.IntRange(1, 4).Draw(rt, "w")
 	n := rapid.IntRange(1, 3).Draw(rt, "n")
 	for i := 0; i < n; i++ {
-		c.Items = append(c.Items, c07Item{W: rapid.IntRange(0, 1).Draw(rt, "wr")})
+		c.Items = append(c.Items, c07Item{W: rapid.IntRange(0, 1).Draw(rt, "wr"),
+			V: rapid.SampledFrom([]string{"", "nil", "zero", "nilptr"}).Draw(rt, "v")})
 	}
 	c.Red.Take = -1
 	c.Items[rapid.IntRange(0, n-1).Draw(rt, "pi")].A = "panic"
@@ -1206,18 +1338,26 @@ func TestVerif_C07_zz_loop(t *testing.T) {
 //
 //	reducer take all|0|1 x result none|late|early x plain|cancel|panic, ctx none|deadline 0..1
 //
-// thorough: delays 0..2, 0..2 values per item, ctx deadline 0..2 in addition.
+// thorough: delays 0..2, 0..2 values per item, ctx deadline 0..2 in addition, and every
+//
+//	item either an int that writes structs or an untyped nil that writes nils.
 func c07Enumerate(thorough bool) func(yield func(c07Case) bool) {
 	ds, ws, ctxs := []int{0, 1}, []int{1}, []int{-1, 0, 1}
 	if thorough {
 		ds, ws, ctxs = []int{0, 1, 2}, []int{0, 1, 2}, []int{-1, 0, 1, 2}
 	}
 	acts := []string{"", "cancel", "panic"}
+	vs := []string{""}
+	if thorough {
+		vs = []string{"", "nil"}
+	}
 	var opts []c07Item
 	for _, d := range ds {
 		for _, w := range ws {
 			for _, a := range acts {
-				opts = append(opts, c07Item{D: d, W: w, A: a})
+				for _, val := range vs {
+					opts = append(opts, c07Item{D: d, W: w, A: a, V: val, X: val})
+				}
 			}
 		}
 	}
